@@ -18,6 +18,7 @@ var (
 	clockMu   sync.Mutex
 	clockBase = time.Unix(1_700_000_000, 0)
 	clockOff  time.Duration
+	clockStep = 1537 * time.Microsecond // how far one read of the clock advances it (per run)
 	simRand   = rand.New(rand.NewSource(1))
 	nClock    uint64
 	nRand     uint64
@@ -29,6 +30,8 @@ func SetClock(startUnix int64, rngSeed int64) {
 	defer clockMu.Unlock()
 	clockBase = time.Unix(startUnix, 0)
 	clockOff = 0
+	// a fast or a slow machine: between 1 microsecond and 40 milliseconds per clock read
+	clockStep = []time.Duration{time.Microsecond, 137 * time.Microsecond, 1537 * time.Microsecond, 40 * time.Millisecond}[uint64(rngSeed^startUnix)%4]
 	simRand = rand.New(rand.NewSource(rngSeed))
 	SetAddressBase(uint64(startUnix) ^ uint64(rngSeed))
 }
@@ -47,7 +50,7 @@ func TimeNow() time.Time {
 	clockMu.Lock()
 	defer clockMu.Unlock()
 	nClock++
-	clockOff += 1537 * time.Microsecond
+	clockOff += clockStep
 	return clockBase.Add(clockOff)
 }
 
